@@ -30,7 +30,9 @@ theorem unitEq_linear {s : RegState} {u v a b} (h : Linear s u v a b) :
     s.unitEq u v = some (a == b) := by
   unfold RegState.unitEq
   have h1 : (s.unitCls u != s.unitCls v) = false := by simp [h.sameCls]
-  simp [h1, h.eu, h.ev]
+  have h2 : (s.cls (s.unitCls u)).refUnit.isNone = false := by
+    have := h.hasRef; cases hx : (s.cls (s.unitCls u)).refUnit <;> simp_all
+  simp [h1, h2, h.eu, h.ev]
 
 /-- `equiv_amount` between linear units is multiplication by the ratio of scales
 (when the scales coincide the amount is returned as it is — the same value). -/
